@@ -29,7 +29,14 @@ type vhBox struct {
 	all     []vivid.Envelop // every envelope ever enqueued, in order
 }
 
+// vhOnEnqueue, when set, observes every envelope at the instant it is put into
+// a recording mailbox (i.e. at the instant the sender reports something).
+var vhOnEnqueue func(b *vhBox, e vivid.Envelop)
+
 func (b *vhBox) Enqueue(e vivid.Envelop) {
+	if vhOnEnqueue != nil {
+		vhOnEnqueue(b, e)
+	}
 	b.all = append(b.all, e)
 	if e.System() {
 		b.sys = append(b.sys, e)
